@@ -625,6 +625,9 @@ class RTDCBase(abc.ABC):
         xs = RTDCBase._apply_scale(x, xscale, xax)
         ys = RTDCBase._apply_scale(y, yscale, yax)
 
+        # We cannot draw more events than there are in the dataset.
+        downsample = min(downsample, xs.size)
+
         _, _, idx = downsampling.downsample_grid(xs, ys,
                                                  samples=downsample,
                                                  remove_invalid=remove_invalid,
